@@ -637,8 +637,12 @@ theorem specBody_iso {R : NodeId → NodeId → Prop} {e₁ e₂ : Spec.Env} (hE
   have hdr : n₁.dynamicRef = n₂.dynamicRef := scal_dynamicRef hn.scal
   have hkref := kwRef_iso hsub (e₁ := e₁) (e₂ := e₂) (s₁ := s₁) (s₂ := s₂) href
     (fun h => hE.ref s₁ s₂ n₁ hs h₁ h) j
+  have hdrv : (Spec.vocab e₁.draft n₁).dynamicRef = (Spec.vocab e₂.draft n₂).dynamicRef := by
+    rw [hE.draft]; simp only [Spec.vocab, hdr]
   have hkdyn := kwDynamicRef_iso hsub (e₁ := e₁) (e₂ := e₂) (sc₁ := sc₁ ++ [s₁]) (sc₂ := sc₂ ++ [s₂]) (s₁ := s₁)
-    (s₂ := s₂) hdr (fun h => ⟨(hE.dyn s₁ s₂ n₁ hs h₁ h).1, (hE.dyn s₁ s₂ n₁ hs h₁ h).2.1,
+    (s₂ := s₂) (n₁ := Spec.vocab e₁.draft n₁) (n₂ := Spec.vocab e₂.draft n₂) hdrv (fun h0 =>
+      have h : n₁.dynamicRef ≠ "" := fun e => h0 (by cases e₁.draft <;> simp [Spec.vocab, e])
+      ⟨(hE.dyn s₁ s₂ n₁ hs h₁ h).1, (hE.dyn s₁ s₂ n₁ hs h₁ h).2.1,
       (hE.dyn s₁ s₂ n₁ hs h₁ h).2.2 _ _ hscope⟩) j
   have hkl : Inv.kwList e₁ rec₁ sc₁ s₁ j n₁ = Inv.kwList e₂ rec₂ sc₂ s₂ j n₂ := by
     unfold Inv.kwList
